@@ -18,7 +18,7 @@ Not decided: races between refill and callers as such; server behaviour.
 """
 from ..inline import inline_view
 from ..mir import AnchorLost
-from ..dataflow import DisjFlow
+from ..dataflow import DisjFlow, adt_of_type
 from ..util import closure_family, dj_of, enum_variant_of_operand, df_of, fn_short, in_set, operand_path, path_last, backward_slice, field_writers, callers_keys, switch_on, switch_edges, yields, _rv_locals
 
 P = "scylla::network::connection_pool::"
@@ -313,9 +313,64 @@ def r6(ctx, facts):
         r.fail("pool-present-implies-forwarded", "Node::use_keyspace no longer branches on self.pool", b.span)
 
 
+def r7(ctx, facts):
+    r = ctx.rule("R7", "a per-connection USE KEYSPACE failure other than a broken connection is never outvoted by another connection's Ok", floor=3)
+    from .c10 import ok_sites
+    b = facts.one(r"^scylla::cluster::worker::use_keyspace_result$")
+    dj = dj_of(b, facts)
+    oks = {bb for bb, _ in ok_sites(b)}
+    if not oks:
+        raise AnchorLost("use_keyspace_result has no Ok exit")
+    UKE, RAE = "scylla::errors::UseKeyspaceError", "scylla::errors::RequestAttemptError"
+    want = {UKE: "RequestError", RAE: "BrokenConnectionError"}
+    edges, seen = [], set()
+    res_sw = []
+    for bb in sorted(b.live_blocks):
+        t = b.term(bb)
+        if t[0] != "switch":
+            continue
+        e = dj.expr_of_operand(t[1])
+        if e is None or e[0] != "disc":
+            continue
+        ty = adt_of_type(dj.disc_ty.get(e[1], ""))
+        vals, other = switch_edges(b, bb)
+        if ty == "core::result::Result":
+            res_sw.append((bb, vals, other))
+        if ty not in want:
+            continue
+        seen.add(ty)
+        adt = facts.adts.get(ty)
+        idx = [int(v["discr"]) for v in adt["variants"] if v["name"] == want[ty]][0]
+        for v, tg in vals.items():
+            if v != idx:
+                edges.append((ty, bb, tg))
+        if idx in vals and other is not None:
+            edges.append((ty, bb, other))
+    if seen != set(want):
+        raise AnchorLost("use_keyspace_result: the match on UseKeyspaceError::RequestError(RequestAttemptError::BrokenConnectionError) was not found (%s)" % sorted(seen))
+    bad = []
+    for ty, u, v in edges:
+        reach = dj.feasible_reach_edge(u, v)
+        if reach & oks:
+            bad.append("%s arm at %s" % (ty.split("::")[-1], b.term_span(u)))
+    r.instance("other-error-never-becomes-ok", bool(edges) and not bad,
+               "once one connection answered USE KEYSPACE with an error that is not a broken connection, use_keyspace_result must not return Ok "
+               "(the keyspace was refused; connections that said Ok would keep it while the caller is told nothing): Ok reachable from %s" % bad[:2], b.span)
+    # Ok only if some connection said Ok
+    okarm = set()
+    for bb, vals, other in res_sw:
+        if 0 in vals:
+            okarm.add(vals[0])
+        elif 1 in vals and other is not None:
+            okarm.add(other)
+    ok2 = bool(okarm) and not (dj.feasible_reach(0, removed_nodes=okarm) & oks)
+    r.instance("ok-needs-one-ok", ok2, "use_keyspace_result may return Ok only after at least one per-connection Ok (all-broken must stay an error)", b.span)
+    r.instance("arms", bool(edges), "%d non-broken error edges examined" % len(edges), b.span, nontrivial=False)
+
+
 def check(ctx):
     facts = inline_view(ctx.facts("default"))
-    for fn in (r1, r2, r3, r4, r5, r6):
+    for fn in (r1, r2, r3, r4, r5, r6, r7):
         try:
             fn(ctx, facts)
         except AnchorLost as ex:
